@@ -271,6 +271,16 @@ func (s Session) coq() string {
 				ob = lib.App("OReply", hx(o.Reply))
 			}
 			ci = lib.App("ICmd", c, ob)
+			if o.PipeArrive {
+				r := "None"
+				if o.HasReply {
+					r = "(Some " + hx(o.Reply) + ")"
+				}
+				ci = lib.App("IArrive", c, r)
+			}
+		}
+		if o.ReadyBefore {
+			items = append(items, lib.Tuple("IReady", "None"))
 		}
 		if o.NoSnap {
 			items = append(items, lib.Tuple(ci, "None"))
@@ -498,7 +508,9 @@ func pipeView(s Session, idx int, res *lib.Result) Session {
 	for i, it := range s.Items {
 		per[it.Ctl] = append(per[it.Ctl], i)
 	}
-	var pending []int // item indices, in topic order, not yet answered
+	var pending []int            // item indices, in topic order, not yet answered
+	var seq []int                // every command, in the order it appeared on the topic
+	answered := map[int][]byte{} // item index -> its reply
 	who := map[string]int{}
 	confused := false // a command on the topic could not be told to a controller (two controllers under one hub name)
 	matches := func(it Item, r []byte) bool {
@@ -532,6 +544,7 @@ func pipeView(s Session, idx int, res *lib.Result) Session {
 				continue
 			}
 			pending = append(pending, per[c][next[c]])
+			seq = append(seq, per[c][next[c]])
 			next[c]++
 			continue
 		}
@@ -551,8 +564,68 @@ func pipeView(s Session, idx int, res *lib.Result) Session {
 		}
 		i := pending[hit]
 		pending = pending[hit+1:] // commands before it were dropped by the hub before they reached the handler
+		answered[i] = m.Data
 		view.Items = append(view.Items, s.Items[i])
 		view.Obs = append(view.Obs, Obs{HasReply: true, Reply: m.Data, NoSnap: true})
+	}
+	// commands that arrived on the topic and were never answered
+	if !confused {
+		taken := false
+		var f17, idle []int
+		var busyWith int
+		for _, i := range seq {
+			if _, ok := answered[i]; ok {
+				if !taken {
+					busyWith = i
+				}
+				taken = true
+				continue
+			}
+			it := s.Items[i]
+			inTables := false
+			if it.Class == "tag" && o.Dests != nil {
+				_, d := o.Dests[it.Tag]
+				_, st := o.Streams[it.Tag]
+				inTables = (d || st) && strings.Contains(it.Family, "add/")
+			}
+			switch {
+			case inTables:
+				// the handler demonstrably took it (its rule is in the tables) and still no reply
+				bad("command-taken-not-answered", keyFamily(it), fmt.Sprintf("%s took effect (its rule is in the tables) but no reply to it was put on the topic", it.Text))
+			case taken:
+				f17 = append(f17, i)
+			default:
+				idle = append(idle, i)
+			}
+		}
+		for _, i := range idle {
+			bad("command-unanswered", "handler-idle", fmt.Sprintf("%s arrived on the topic before the handler had taken any command of the session and got no reply", s.Items[i].Text))
+		}
+		if len(f17) > 0 {
+			// known finding F17: one report per session
+			res.Violate(lib.Violation{Clause: "command-unanswered", Case: idx, Replay: s, Key: "F17:pipelined-command-dropped-before-the-handler",
+				Detail: fmt.Sprintf("%d controller(s) on /ws/api sent %d commands back to back (pause of %d us after every third); all %d arrived on the api topic, %d got a reply, %d never did; first unanswered: %s, sent after %s which the handler had taken: the hub offers a command to internalAPI's unbuffered Send without waiting, a command that arrives while the handler is busy is dropped without a reply",
+					s.Controllers, len(s.Items), s.GapUs, len(seq), len(answered), len(f17), s.Items[f17[0]].Text, s.Items[busyWith].Text)})
+		}
+		// the whole topic history for the model: arrivals, and the handler waiting again before each command it took
+		cv := &Session{API: s.API, Mode: "topic"}
+		busy := false
+		for _, i := range seq {
+			r, ok := answered[i]
+			ob := Obs{PipeArrive: true, NoSnap: true}
+			if ok {
+				ob.HasReply, ob.Reply = true, r
+				ob.ReadyBefore = busy
+				busy = true
+			}
+			cv.Items = append(cv.Items, s.Items[i])
+			cv.Obs = append(cv.Obs, ob)
+		}
+		if n := len(cv.Obs); n > 0 && o.Dests != nil {
+			cv.Obs[n-1].NoSnap = false
+			cv.Obs[n-1].Dests, cv.Obs[n-1].Streams = o.Dests, o.Streams
+		}
+		view.coqView = cv
 	}
 	if confused {
 		res.Count("pipelined:discarded-controllers-not-told-apart")
@@ -629,6 +702,10 @@ func main() {
 		sessions = corpus()
 		n := a.Pick(48, 480)
 		// pipelined sessions: controllers that do not wait for replies
+		// the shortest histories first: one controller, N commands back to back (F17 shows from N = 2)
+		for _, n := range []int{1, 2, 3, 5, 10, 30} {
+			sessions = append(sessions, genPipeSession(lib.NewRng(int64(20+n)), 1, n, 0))
+		}
 		sessions = append(sessions, genPipeSession(lib.NewRng(7), 1, 200, 0), genPipeSession(lib.NewRng(9), 1, 300, 20), genPipeSession(lib.NewRng(10), 1, 300, 100),
 			genPipeSession(lib.NewRng(8), 3, 120, 0), genPipeSession(lib.NewRng(11), 2, 150, 30))
 		for i := 0; i < a.Pick(4, 40); i++ {
@@ -670,7 +747,11 @@ func main() {
 			res.Count(fmt.Sprintf("sessions:pipe:%d-controllers", orig.Controllers))
 		}
 		oracle(s, i, res)
-		coq[i] = s.coq()
+		if s.coqView != nil {
+			coq[i] = s.coqView.coq()
+		} else {
+			coq[i] = s.coq()
+		}
 		res.Count("sessions:" + orig.Mode)
 		if s.API == "" {
 			res.Count("sessions:no-control-connection")
